@@ -64,7 +64,7 @@ func (g *genRns) Config(rng *Rng, tier string) Config {
 		c.PoorBalance = rng.Pick64(0, 1000, 9_999_999, 60_000_000)
 	}
 	c.InvCheckPeriod = uint(rng.Pick64(0, 0, 1))
-	g.net = newNet(rng, []string{"tx_dup", "tx_delay", "tx_reorder", "out_of_gas", "crash_restart", "tx_drop"}, 6)
+	g.net = newNet(rng, []string{"tx_dup", "tx_delay", "tx_reorder", "out_of_gas", "crash_restart", "tx_drop", "multi_msg"}, 6)
 	return c
 }
 
@@ -437,7 +437,21 @@ func (o *oracleC09) AfterStep(w *World, st *Step, msgs []sdk.Msg, res *abci.Resp
 	kind := shortKind(msgs)
 	o.invariant(w, post, "after "+kind)
 	if len(msgs) != 1 {
-		return
+		// a successful multi-message transaction made of copies of one message is accounted as one
+		// step over the whole transaction's balance changes; anything else is only held to the invariant
+		same := res.Code == 0
+		for _, m := range msgs[1:] {
+			if mustJSON(m) != mustJSON(msgs[0]) || sdk.MsgTypeURL(m) != sdk.MsgTypeURL(msgs[0]) {
+				same = false
+			}
+		}
+		if !same {
+			if res.Code != 0 && (!o.pre.bal.Equal(post.bal) || len(o.pre.bids) != len(post.bids)) {
+				w.Violate("C09:failed-but-moved:"+kind, "failed multi-message %s moved balances or bids", kind)
+			}
+			return
+		}
+		msgs = msgs[:1]
 	}
 	modAddr := moduleAddr(rnstypes.ModuleName)
 	target, _ := rnsMsgName(msgs[0])
